@@ -6,7 +6,6 @@ SHA-512/Keccak/HKDF native Lean; AES is not modelled: the harness hands the mode
 an independent HKDF/X25519-style oracle for the shared key, round trips for every format, every single-byte corruption and
 wrong-recipient decode on Symbol must come back as (False, original).
 """
-import ast
 import hashlib
 import hmac
 import json
@@ -41,76 +40,233 @@ ASSUMPTIONS = [
 ]
 
 
+_OBSERVE = r"""
+import json, secrets, sys, warnings
+warnings.simplefilter('ignore')
+record = {'hkdf': [], 'gcm': [], 'cbc': [], 'random': []}
+phase = ['-']
+
+from cryptography.hazmat.primitives.ciphers import modes
+from cryptography.hazmat.primitives.kdf import hkdf
+
+_hkdf_init, _hkdf_derive = hkdf.HKDF.__init__, hkdf.HKDF.derive
+_gcm_init, _cbc_init, _token_bytes = modes.GCM.__init__, modes.CBC.__init__, secrets.token_bytes
+
+
+def as_hex(value):
+	return None if value is None else bytes(value).hex()
+
+
+def hkdf_init(self, algorithm, length, salt, info, *args, **kwargs):
+	self._observed = {'algorithm': getattr(algorithm, 'name', repr(algorithm)), 'length': length, 'salt': as_hex(salt), 'info': as_hex(info)}
+	_hkdf_init(self, algorithm, length, salt, info, *args, **kwargs)
+
+
+def hkdf_derive(self, key_material):
+	record['hkdf'].append(dict(self._observed, phase=phase[0], ikm_size=len(key_material)))
+	return _hkdf_derive(self, key_material)
+
+
+def gcm_init(self, initialization_vector, tag=None, *args, **kwargs):
+	record['gcm'].append({'phase': phase[0], 'iv': len(initialization_vector), 'tag': None if tag is None else len(tag)})
+	_gcm_init(self, initialization_vector, tag, *args, **kwargs)
+
+
+def cbc_init(self, initialization_vector, *args, **kwargs):
+	record['cbc'].append({'phase': phase[0], 'iv': len(initialization_vector)})
+	_cbc_init(self, initialization_vector, *args, **kwargs)
+
+
+def token_bytes(count=None):
+	record['random'].append({'phase': phase[0], 'size': count})
+	return _token_bytes(count)
+
+
+hkdf.HKDF.__init__, hkdf.HKDF.derive = hkdf_init, hkdf_derive
+modes.GCM.__init__, modes.CBC.__init__, secrets.token_bytes = gcm_init, cbc_init, token_bytes
+
+from symbolchain.CryptoTypes import PrivateKey
+from symbolchain.facade.NemFacade import NemFacade
+from symbolchain.facade.SymbolFacade import SymbolFacade
+
+clear = bytes(range(1, 6))
+out = {'clear_size': len(clear)}
+for name, facade_class in (('symbol', SymbolFacade), ('nem', NemFacade)):
+	facade = facade_class('testnet')
+	alice = facade.create_account(PrivateKey(bytes(range(32))))
+	bob = facade.create_account(PrivateKey(bytes(range(32, 64))))
+	phase[0] = name + ':derive'
+	one = facade.SharedKey.derive_shared_key(alice.key_pair, bob.public_key)
+	other = facade.SharedKey.derive_shared_key(bob.key_pair, alice.public_key)
+	out[name + ':key_size'] = len(one.bytes)
+	out[name + ':symmetric'] = one.bytes == other.bytes
+	out[name + ':public_key_size'] = len(alice.public_key.bytes)
+	phase[0] = name + ':encode'
+	encoded = alice.message_encoder().encode(bob.public_key, clear)
+	phase[0] = name + ':decode'
+	flag, decoded = bob.message_encoder().try_decode(alice.public_key, encoded)
+	out[name + ':roundtrip'] = bool(flag) and bytes(decoded) == clear
+	if 'symbol' == name:
+		out['symbol:encoded'] = bytes(encoded).hex()
+		phase[0] = 'symbol:delegation'
+		remote = facade.create_account(PrivateKey(bytes(range(64, 96))))
+		vrf = facade.create_account(PrivateKey(bytes(range(96, 128))))
+		request = type(alice.message_encoder()).encode_persistent_harvesting_delegation(bob.public_key, remote.key_pair, vrf.key_pair)
+		out['symbol:delegation'] = bytes(request).hex()
+		out['symbol:delegation_clear_size'] = len(remote.key_pair.private_key.bytes) + len(vrf.key_pair.private_key.bytes)
+		phase[0] = 'symbol:delegation-decode'
+		flag, decoded = bob.message_encoder().try_decode(alice.public_key, request)
+		out['symbol:delegation_roundtrip'] = bool(flag) and bytes(decoded) == remote.key_pair.private_key.bytes + vrf.key_pair.private_key.bytes
+	else:
+		out['nem:encoded'] = bytes(encoded.message).hex()
+		out['nem:message_type'] = encoded.message_type.value
+		phase[0] = 'nem:encode-deprecated'
+		deprecated = alice.message_encoder().encode_deprecated(bob.public_key, clear)
+		out['nem:encoded_deprecated'] = bytes(deprecated.message).hex()
+		out['nem:message_type_deprecated'] = deprecated.message_type.value
+		phase[0] = 'nem:decode-deprecated'
+		flag, decoded = bob.message_encoder().try_decode(alice.public_key, deprecated)
+		out['nem:roundtrip_deprecated'] = bool(flag) and bytes(decoded) == clear
+out['record'] = record
+print(json.dumps(out))
+"""
+
+
+def _observe(repo):
+	"""Runs both networks' SharedKey / MessageEncoder once in a fresh interpreter with the `cryptography` stand-in's HKDF, GCM
+	and CBC constructors and `secrets.token_bytes` wrapped, and returns what crossed that library boundary plus the outputs."""
+	import subprocess
+
+	from .common import ROOT
+	env = dict(os.environ)
+	env.update({
+		'PYTHONPATH': os.pathsep.join([os.path.join(repo, 'sdk/python'), os.path.join(ROOT, 'shims')]), 'PYTHONDONTWRITEBYTECODE': '1',
+		'PYTHONHASHSEED': '0'})
+	proc = subprocess.run(['/venv/bin/python', '-c', _OBSERVE], env=env, capture_output=True, text=True, timeout=300, check=False)
+	if 0 != proc.returncode:
+		raise ValueError(f'observation run failed: {proc.stderr.strip()[-500:]}')
+	return json.loads(proc.stdout.strip().split('\n')[-1])
+
+
+def _single(values, what):
+	distinct = sorted({json.dumps(value) for value in values})
+	if 1 != len(distinct):
+		raise ValueError(f'{what}: expected one value, observed {distinct[:4]}')
+	return json.loads(distinct[0])
+
+
+def _constants(repo):
+	"""The C14 constants, none of them read off the shape of the source text.
+
+	What is not a public name (HKDF hash/length/salt/label per network, IV, tag and salt sizes actually used) is observed at the
+	boundary of the `cryptography` stand-in and on the outputs of the public encoders; public names (DELEGATION_MARKER,
+	AesGcmCipher.TAG_SIZE, the upper-case constants of CipherHelpers, MessageType.ENCRYPTED, PublicKey.SIZE) are evaluated by
+	importing the modules from the working tree and must agree with the observation where both exist."""
+	from translate import pyruntime
+	failures = []
+	seen = _observe(repo)
+	record = seen['record']
+	for key in ('symbol:symmetric', 'symbol:roundtrip', 'symbol:delegation_roundtrip', 'nem:symmetric', 'nem:roundtrip', 'nem:roundtrip_deprecated'):
+		if not seen.get(key):
+			failures.append(f'observation run: {key} is false')
+
+	result = {}
+	derives = {network: [entry for entry in record['hkdf'] if entry['phase'] == f'{network}:derive'] for network in ('symbol', 'nem')}
+	for network, entries in derives.items():
+		if not entries:
+			raise ValueError(f'{network}: derive_shared_key did not go through HKDF')
+		if 'sha256' != _single([entry['algorithm'] for entry in entries], f'{network} HKDF algorithm'):
+			failures.append(f'{network}: HKDF algorithm is {entries[0]["algorithm"]}, not SHA-256')
+		result[f'label_{network}'] = bytes.fromhex(_single([entry['info'] for entry in entries], f'{network} HKDF info') or '')
+	every = derives['symbol'] + derives['nem']
+	salt = _single([entry['salt'] for entry in every], 'HKDF salt')
+	if salt is None:
+		raise ValueError('HKDF is called without a salt')
+	result['salt'] = bytes.fromhex(salt)
+	result['length'] = _single([entry['length'] for entry in every], 'HKDF length')
+	if result['length'] != _single([seen['symbol:key_size'], seen['nem:key_size']], 'shared key size'):
+		failures.append('HKDF length differs from the size of the returned shared key')
+	# every message key of the current formats must come out of the same HKDF parameters
+	for entry in record['hkdf']:
+		network = entry['phase'].split(':')[0]
+		if (entry['salt'], entry['length'], entry['info']) != (salt, result['length'], result[f'label_{network}'].hex()):
+			failures.append(f'{entry["phase"]}: HKDF parameters differ from those of derive_shared_key')
+
+	result['gcm_iv'] = _single([entry['iv'] for entry in record['gcm']], 'GCM IV size')
+	result['tag'] = _single([entry['tag'] for entry in record['gcm'] if entry['tag'] is not None], 'GCM tag size on decryption')
+	result['cbc_iv'] = _single([entry['iv'] for entry in record['cbc']], 'CBC IV size')
+	clear_size = seen['clear_size']
+	symbol_size = len(seen['symbol:encoded']) // 2
+	if symbol_size != 1 + result['tag'] + result['gcm_iv'] + clear_size:
+		failures.append(f'Symbol message of {clear_size} bytes is {symbol_size} bytes, not 1 + tag + iv + ciphertext')
+	if len(seen['nem:encoded']) // 2 != result['tag'] + result['gcm_iv'] + clear_size:
+		failures.append('NEM message is not tag + iv + ciphertext')
+	block = 16  # AES block: the padded ciphertext of a message shorter than one block
+	result['salt_size'] = len(seen['nem:encoded_deprecated']) // 2 - result['cbc_iv'] - block * (clear_size // block + 1)
+	sizes = sorted(entry['size'] for entry in record['random'] if 'nem:encode-deprecated' == entry['phase'])
+	if sizes != sorted([result['salt_size'], result['cbc_iv']]):
+		failures.append(f'deprecated NEM encoding draws random values of sizes {sizes}, layout gives salt {result["salt_size"]} + iv {result["cbc_iv"]}')
+	result['encrypted_type'] = _single([seen['nem:message_type'], seen['nem:message_type_deprecated']], 'NEM message type')
+	result['public_key_size'] = _single([seen['symbol:public_key_size'], seen['nem:public_key_size']], 'public key size')
+
+	delegation = bytes.fromhex(seen['symbol:delegation'])
+	marker_size = len(delegation) - result['public_key_size'] - result['tag'] - result['gcm_iv'] - seen['symbol:delegation_clear_size']
+	observed_marker = delegation[:max(0, marker_size)]
+
+	# public names, where they (still) exist
+	def named(module, expression):
+		try:
+			return pyruntime.values(repo, module, [expression])[expression]
+		except ValueError:
+			return None
+
+	marker = named('symbolchain.symbol.MessageEncoder', 'DELEGATION_MARKER')
+	result['marker'] = observed_marker
+	if marker is not None and bytes.fromhex(marker['hex']) != observed_marker:
+		failures.append(f'DELEGATION_MARKER is {marker["hex"]} but delegation requests start with {observed_marker.hex()}')
+	tag_name = named('symbolchain.Cipher', 'AesGcmCipher.TAG_SIZE')
+	if tag_name is not None and tag_name != result['tag']:
+		failures.append(f'AesGcmCipher.TAG_SIZE is {tag_name} but tags of {result["tag"]} bytes are used')
+	helpers = named('symbolchain.impl.CipherHelpers', '{k: v for k, v in vars(module).items() if k.isupper() and isinstance(v, int)}') or {}
+	for name, key in (('GCM_IV_SIZE', 'gcm_iv'), ('CBC_IV_SIZE', 'cbc_iv'), ('SALT_SIZE', 'salt_size')):
+		if name in helpers and helpers[name] != result[key]:
+			failures.append(f'CipherHelpers.{name} is {helpers[name]} but {result[key]} bytes are used')
+	for module, expression, key in (
+			('symbolchain.nc', 'MessageType.ENCRYPTED.value', 'encrypted_type'), ('symbolchain.CryptoTypes', 'PublicKey.SIZE', 'public_key_size')):
+		value = named(module, expression)
+		if value is not None and value != result[key]:
+			failures.append(f'{expression} is {value} but {result[key]} is used')
+	return result, failures
+
+
 def translate(_ctx):
-	"""Generated/C14Consts.lean: framing constants and labels of the anchored files, re-read on every run."""
+	"""Generated/C14Consts.lean: framing constants, labels and HKDF parameters as the working tree uses them on this run."""
 	from translate import pyconst
 
 	from .common import LEAN, REPO, write_if_changed
-	base = os.path.join(REPO, 'sdk/python/symbolchain')
-	failures = []
-	helpers = pyconst.module_constants(os.path.join(base, 'impl/CipherHelpers.py'))
-	tag_size = pyconst.class_constants(os.path.join(base, 'Cipher.py'), 'AesGcmCipher')['TAG_SIZE']
-
-	def bytes_constant(node):
-		"""b'..' literal, bytes(n) or unhexlify('..')"""
-		if isinstance(node, ast.Constant) and isinstance(node.value, bytes):
-			return node.value
-		if isinstance(node, ast.Call) and isinstance(node.func, ast.Name):
-			if 'unhexlify' == node.func.id:
-				return bytes.fromhex(pyconst.const_eval(node.args[0]))
-			if 'bytes' == node.func.id:
-				return bytes(pyconst.const_eval(node.args[0]))
-		raise ValueError(f'not a bytes constant: {ast.dump(node)[:100]}')
-
-	marker = None
-	for node in pyconst.parse(os.path.join(base, 'symbol/MessageEncoder.py')).body:
-		if isinstance(node, ast.Assign) and 'DELEGATION_MARKER' == getattr(node.targets[0], 'id', None):
-			marker = bytes_constant(node.value)
-
-	def derive_label(path):
-		"""the info argument (third positional) of the call to BasicSharedKey._derive_shared_key in derive_shared_key"""
-		for node in ast.walk(pyconst.parse(path)):
-			if isinstance(node, ast.FunctionDef) and 'derive_shared_key' == node.name:
-				for call in ast.walk(node):
-					if isinstance(call, ast.Call) and '_derive_shared_key' == getattr(call.func, 'attr', None):
-						return bytes_constant(call.args[2])
-		raise ValueError(f'no _derive_shared_key call in {path}')
-
-	label_symbol = derive_label(os.path.join(base, 'symbol/SharedKey.py'))
-	label_nem = derive_label(os.path.join(base, 'nem/SharedKey.py'))
-
-	salt = length = None
-	for node in ast.walk(pyconst.parse(os.path.join(base, 'SharedKey.py'))):
-		if isinstance(node, ast.Assign) and 'salt' == getattr(node.targets[0], 'id', None):
-			salt = bytes_constant(node.value)
-		if isinstance(node, ast.Call) and 'HKDF' == getattr(node.func, 'id', None):
-			for keyword in node.keywords:
-				if 'length' == keyword.arg:
-					length = pyconst.const_eval(keyword.value)
-				if 'algorithm' == keyword.arg and 'SHA256' != getattr(getattr(keyword.value, 'func', None), 'attr', None):
-					failures.append('SharedKey.py: HKDF algorithm is no longer hashes.SHA256()')
-	encrypted = pyconst.class_constants(os.path.join(base, 'nc/__init__.py'), 'MessageType')['ENCRYPTED']
-	key_size = pyconst.class_constants(os.path.join(base, 'CryptoTypes.py'), 'PublicKey')['SIZE']
+	try:
+		found, failures = _constants(REPO)
+	except Exception as ex:  # pylint: disable=broad-except
+		return [f'C14 constants could not be obtained from the working tree: {type(ex).__name__}: {str(ex)[:600]}']
 
 	text = (
-		'/- generated by harness/c14.py from sdk/python/symbolchain/{SharedKey,Cipher,CryptoTypes}.py, impl/CipherHelpers.py,\n'
-		'   symbol/{SharedKey,MessageEncoder}.py, nem/SharedKey.py, nc; do not edit -/\n'
+		'/- generated by harness/c14.py: values observed on sdk/python/symbolchain (SharedKey, MessageEncoder of both networks run\n'
+		'   once against the recording cryptography stand-in; public constants imported from the working tree); do not edit -/\n'
 		'namespace SymbolVerif.Generated.C14\n'
-		f'def TAG_SIZE : Nat := {tag_size}\n'
-		f'def GCM_IV_SIZE : Nat := {helpers["GCM_IV_SIZE"]}\n'
-		f'def CBC_IV_SIZE : Nat := {helpers["CBC_IV_SIZE"]}\n'
-		f'def SALT_SIZE : Nat := {helpers["SALT_SIZE"]}\n'
-		f'def delegationMarker : List Nat := {pyconst.lean_nat_list(list(marker))}\n'
-		f'def labelSymbol : List Nat := {pyconst.lean_nat_list(list(label_symbol))}\n'
-		f'def labelNem : List Nat := {pyconst.lean_nat_list(list(label_nem))}\n'
-		f'def hkdfSalt : List Nat := {pyconst.lean_nat_list(list(salt))}\n'
-		f'def hkdfLength : Nat := {length}\n'
-		f'def nemEncryptedType : Nat := {encrypted}\n'
-		f'def publicKeySize : Nat := {key_size}\n'
+		f'def TAG_SIZE : Nat := {found["tag"]}\n'
+		f'def GCM_IV_SIZE : Nat := {found["gcm_iv"]}\n'
+		f'def CBC_IV_SIZE : Nat := {found["cbc_iv"]}\n'
+		f'def SALT_SIZE : Nat := {found["salt_size"]}\n'
+		f'def delegationMarker : List Nat := {pyconst.lean_nat_list(list(found["marker"]))}\n'
+		f'def labelSymbol : List Nat := {pyconst.lean_nat_list(list(found["label_symbol"]))}\n'
+		f'def labelNem : List Nat := {pyconst.lean_nat_list(list(found["label_nem"]))}\n'
+		f'def hkdfSalt : List Nat := {pyconst.lean_nat_list(list(found["salt"]))}\n'
+		f'def hkdfLength : Nat := {found["length"]}\n'
+		f'def nemEncryptedType : Nat := {found["encrypted_type"]}\n'
+		f'def publicKeySize : Nat := {found["public_key_size"]}\n'
 		'end SymbolVerif.Generated.C14\n')
 	write_if_changed(os.path.join(LEAN, 'SymbolVerif', 'Generated', 'C14Consts.lean'), text)
 	return failures
-
 
 
 # region independent oracle
